@@ -214,6 +214,13 @@ class CLEngine(Engine):
 
         if kind == "warmup":
             return [["loadmd", []], ["run", 12], mk([(ti, pi)]), ["run", 12]]
+        if kind == "noconn":
+            # a warm call (also one that expects no reply) to a known broker whose connection cannot be re-established
+            leader = self.config["topics"][ti]["leaders"][pi]
+            node = leader if leader > 0 else b
+            second = ["produce", [[ti, pi]], draw(st.sampled_from([0, 0, 1, -1])), True] if draw(st.booleans()) else mk([(ti, pi)])
+            return [["loadmd", []], ["run", 12], mk([(ti, pi)]), ["run", 10], ["refuse", node], ["drop", 0, 0], ["drop", 0, 0], ["drop", 0, 0], ["run", 8], second, ["run", 6],
+                    ["wait", 6], ["timer"], ["run", 6], ["timer"], ["run", 6]]
         if kind == "notleader":
             return [["loadmd", []], ["run", 12], mk([(ti, pi)]), ["run", 10], ["leader", ti, pi, b], mk([(ti, pi)]), ["run", 10], mk([(ti, pi)]), ["run", 14]]
         if kind == "readdress":
